@@ -139,9 +139,14 @@ def scan_between(vals, lo, hi, strict=True):
     """(first, last) index with lo < vals[i] < hi, or None.  vals: LD ndarray or list of Fractions."""
     if isinstance(vals, np.ndarray):
         if strict:
-            mask = ((vals > lo) & (vals < hi)).tolist()
+            mask = (vals > lo) & (vals < hi)
         else:
-            mask = ((vals >= lo) & (vals <= hi)).tolist()
+            mask = (vals >= lo) & (vals <= hi)
+        if len(mask) > 6000:   # long records: first True from the front, first True from the back (no Python loop)
+            if not mask.any():
+                return None
+            return (int(mask.argmax()), int(len(mask) - 1 - mask[::-1].argmax()))
+        mask = mask.tolist()
     else:
         if strict:
             mask = [(v > lo and v < hi) for v in vals]
@@ -181,5 +186,8 @@ class Between(object):
 
 def scan_exceeding(absvals, thr):
     """(first, last) index with absvals[i] > thr (strict), or None; explicit scan."""
+    if isinstance(absvals, np.ndarray):   # long records: the same exact comparison, vectorised
+        idx = np.flatnonzero(absvals > thr)
+        return (int(idx[0]), int(idx[-1])) if len(idx) else None
     mask = [bool(v > thr) for v in absvals]
     return _first_last(mask)
